@@ -126,11 +126,24 @@ def is_tup(t):
 
 
 LISTS = (SECLIST, STRLIST, EMPTYLIST)
+CONCRETE_LISTS = [SECLIST, STRLIST]        # the list types with a known element type (a sibling translator adds its own)
 ELEM = {SECLIST: SECTION, STRLIST: STR}
 LIST_OF = {SECTION: SECLIST, STR: STRLIST}
 
 
+EXTRA_COQ_TYPES = {}      # type name -> Coq type, for the types a sibling translator adds (translate_detect2.py)
+
+
+EXTRA_COQ_TYPE_FUNS = []  # functions type -> Coq type or None, for the structured types a sibling translator adds
+
+
 def coq_type(t):
+    if t in EXTRA_COQ_TYPES:
+        return EXTRA_COQ_TYPES[t]
+    for f in EXTRA_COQ_TYPE_FUNS:
+        r = f(t)
+        if r is not None:
+            return r
     if is_opt(t):
         return "option (%s)" % coq_type(t[1])
     if is_tup(t):
@@ -144,7 +157,7 @@ def tname(t):
         return "%s or None" % tname(t[1])
     if is_tup(t):
         return "(" + ", ".join(tname(x) for x in t[1:]) + ")"
-    return t
+    return t if isinstance(t, str) else "%s(%s)" % (t[0], ", ".join(tname(x) for x in t[1:]))
 
 
 DRIVE_FUEL = "drive_fuel {0}"
@@ -250,6 +263,15 @@ def tuple_text(names):
 
 
 class FunctionTranslator:
+    # constructs refused wherever they occur in a block (a sibling translator that gives some of them a
+    # reading overrides the tuple)
+    REFUSED = (ast.NamedExpr, ast.Global, ast.Nonlocal, ast.With, ast.Import, ast.ImportFrom,
+               ast.FunctionDef, ast.AsyncFunctionDef, ast.ClassDef, ast.Lambda, ast.ListComp,
+               ast.SetComp, ast.DictComp, ast.Try, ast.Raise, ast.Assert, ast.Yield,
+               ast.YieldFrom, ast.Await, ast.AsyncFor, ast.AsyncWith, ast.Match)
+
+    MAX_PASSES = 4       # passes over a function until the element types of its `[]` are settled
+
     def __init__(self, path, rel, fn, spec, done, cls=None):
         self.path, self.rel, self.fn, self.spec, self.cls = path, rel, fn, spec, cls
         self.done = done            # py name -> spec of the functions translated before (callable by that name here)
@@ -310,8 +332,8 @@ class FunctionTranslator:
             return "PList %s" % _paren(text)
         if want == STR and ty == CHAR:
             return "[%s]" % text
-        if ty == EMPTYLIST and want in (SECLIST, STRLIST):
-            return "(@nil %s)" % coq_type(ELEM[want])
+        if ty == EMPTYLIST and want in CONCRETE_LISTS:
+            return "(@nil %s)" % _paren(coq_type(ELEM[want]))
         if want == SECLIST and ty == PV:
             # a section where a list of sections is needed: treated as an exception (see DetectRt.pv_list)
             return self.hoist(node, H, "call (pv_list %s)" % _paren(text), "l")
@@ -529,7 +551,7 @@ class FunctionTranslator:
             self.fail(e, "index of type %s" % tname(ti))
         if tv == STR:
             return self.hoist(e, H, "sub_s %s %s" % (_paren(v), _paren(i)), "c"), CHAR
-        if tv in (SECLIST, STRLIST):
+        if tv in CONCRETE_LISTS:
             return self.hoist(e, H, "sub_l %s %s" % (_paren(v), _paren(i)), "x"), ELEM[tv]
         self.fail(e, "subscript of a value of type %s" % tname(tv))
 
@@ -541,7 +563,7 @@ class FunctionTranslator:
             v, tv = self.expr(e.args[0], env, H)
             if tv == STR:
                 return "len %s" % _paren(v), Z
-            if tv in (SECLIST, STRLIST):
+            if tv in CONCRETE_LISTS:
                 return "llen %s" % _paren(v), Z
             self.fail(e, "len of a value of type %s" % tname(tv))
         if isinstance(f, ast.Attribute):
@@ -623,10 +645,7 @@ class FunctionTranslator:
                         target(t)
                 elif isinstance(n, ast.For):
                     target(n.target, loopvars.add)
-                elif isinstance(n, (ast.NamedExpr, ast.Global, ast.Nonlocal, ast.With, ast.Import, ast.ImportFrom,
-                                    ast.FunctionDef, ast.AsyncFunctionDef, ast.ClassDef, ast.Lambda, ast.ListComp,
-                                    ast.SetComp, ast.DictComp, ast.Try, ast.Raise, ast.Assert, ast.Yield,
-                                    ast.YieldFrom, ast.Await, ast.AsyncFor, ast.AsyncWith, ast.Match)):
+                elif isinstance(n, self.REFUSED):
                     self.fail(n, "unsupported construct")
                 elif isinstance(n, ast.Call):
                     f = n.func
@@ -693,7 +712,7 @@ class FunctionTranslator:
         if old == MWD:
             self.fail(node, "the multi-word detector is rebound")
         if old is not None and old != ty:
-            if old == EMPTYLIST and ty in (SECLIST, STRLIST):
+            if old == EMPTYLIST and ty in CONCRETE_LISTS:
                 pass
             else:
                 self.fail(node, "%r changes its type from %s to %s" % (name, tname(old), tname(ty)))
@@ -864,7 +883,7 @@ class FunctionTranslator:
                 text, ty = self.expr(v, env, H)
                 if ty == EMPTYLIST:
                     ty = self.listtypes.get(t.id, EMPTYLIST)
-                    text = "@nil %s" % coq_type(ELEM[ty]) if ty != EMPTYLIST else "[]"
+                    text = "@nil %s" % _paren(coq_type(ELEM[ty])) if ty != EMPTYLIST else "[]"
                 self.bind_var(s, t.id, ty, env, owned=True)
             else:
                 text, ty = self.expr(v, env, H)
@@ -878,7 +897,7 @@ class FunctionTranslator:
         if isinstance(t, ast.Subscript) and isinstance(t.value, ast.Name):
             x = t.value.id
             tx = env.types.get(x)
-            if tx not in (SECLIST, STRLIST) or x not in env.owned:
+            if tx not in CONCRETE_LISTS or x not in env.owned:
                 self.fail(s, "item / slice assignment is supported on a list the function owns only")
             if isinstance(t.slice, ast.Slice):
                 sl = t.slice
@@ -924,7 +943,7 @@ class FunctionTranslator:
         if not (isinstance(t, ast.Subscript) and isinstance(t.value, ast.Name) and not isinstance(t.slice, ast.Slice)):
             self.fail(s, "only `del x[i]` is supported")
         x = t.value.id
-        if env.types.get(x) not in (SECLIST, STRLIST) or x not in env.owned:
+        if env.types.get(x) not in CONCRETE_LISTS or x not in env.owned:
             self.fail(s, "del is supported on a list the function owns only")
         H = []
         i, ti = self.expr(t.slice, env, H)
@@ -960,7 +979,7 @@ class FunctionTranslator:
                 out = self.line(ind, "let %s := append %s %s in" % (x, x, _paren(e)), s)
             else:
                 base = te[1] if is_opt(te) else te
-                if base not in (SECLIST, STRLIST):
+                if base not in CONCRETE_LISTS:
                     self.fail(s, "extend by a value of type %s" % tname(te))
                 if tx == EMPTYLIST:
                     tx = self.refine_list(s, x, ELEM[base], env)
@@ -1095,7 +1114,7 @@ class FunctionTranslator:
             head = "for_each"
         if tl == STR:
             binders.append((x, CHAR))
-        elif tl in (SECLIST, STRLIST):
+        elif tl in CONCRETE_LISTS:
             binders.append((x, ELEM[tl]))
         else:
             self.fail(s, "loop over a value of type %s" % tname(tl))
@@ -1104,7 +1123,7 @@ class FunctionTranslator:
             if isinstance(m, ast.Name) and m.id in names and env.types[m.id] in LISTS:
                 # the body stores into the list it iterates over: accepted for `x[i] = e` only (the length cannot
                 # change); Python's list iterator then reads x[pos] from the current list
-                if m is not lst or tl not in (SECLIST, STRLIST) or lst.id not in env.owned:
+                if m is not lst or tl not in CONCRETE_LISTS or lst.id not in env.owned:
                     self.fail(s, "the iterated list is mutated in the loop")
                 self.only_item_stores(s, lst.id)
                 live = lst.id
@@ -1162,7 +1181,7 @@ class FunctionTranslator:
     def after_loop(self, s, names, env, inner):
         for n in names:
             ti = inner.types.get(n)
-            if env.types[n] == EMPTYLIST and ti in (SECLIST, STRLIST):
+            if env.types[n] == EMPTYLIST and ti in CONCRETE_LISTS:
                 env.types[n] = ti
             elif ti != env.types[n]:
                 self.fail(s, "%r changes its type in the loop" % n)
@@ -1226,7 +1245,7 @@ class FunctionTranslator:
 
     def translate(self):
         fn = self.fn
-        for _ in range(4):
+        for _ in range(self.MAX_PASSES):
             self.retry = False
             text = self.translate_once()
             if not self.retry:
